@@ -3,11 +3,31 @@ package main
 import (
 	"fmt"
 	"os"
+	"strings"
+
+	"golang.org/x/tools/go/ssa"
 
 	"verif/internal/core"
 )
 
 func init() {
+	if spec := os.Getenv("DSCHECK_DEBUG_REACH"); spec != "" {
+		debugHook = func(w *core.World) {
+			var a, b *ssa.Function
+			parts := strings.SplitN(spec, "->", 2)
+			for _, f := range w.RepoFns {
+				if core.FuncKey(f) == parts[0] {
+					a = f
+				}
+				if core.FuncKey(f) == parts[1] {
+					b = f
+				}
+			}
+			ok, chain := w.CG().Reaches(a, b, func(e core.Edge) bool { return e.Kind == "ref" || e.Kind == "dynamic-sig" })
+			fmt.Println("REACH", ok, chain)
+		}
+		return
+	}
 	if fk := os.Getenv("DSCHECK_DEBUG_CALLS"); fk != "" {
 		debugHook = func(w *core.World) {
 			for _, f := range w.RepoFns {
